@@ -822,6 +822,7 @@ def run(ctx):
                 + 250000
             chal0, obs0 = world.challenge("probe", base_t)
             monitor_challenge(ctx, world, chal0, obs0)
+            nonce_of_a_refusal(ctx, world, base_t)
             for (label, method, path, query, agent, text, t_us) in scenarios(
                     world, ctx.rng, ctx.quick, base_t):
                 raw = None if text is None else lat(text)
@@ -933,6 +934,52 @@ def judge(ctx, world, label, req, obs, verdict, user, stale):
         ctx.violation("digest-stale-with-valid-nonce:" + kind, detail)
     elif stale is None:
         ctx.count("monitor:stale-unconstrained:%s" % obs["stale"])
+
+
+def nonce_of_a_refusal(ctx, world, epoch_us):
+    """every 401 issues a nonce: the one handed out with the refusal of a
+    wrong password at t0 must be usable for the whole lifetime from t0,
+    also when the client's previous nonce was still valid at t0"""
+    tmo = world.timeout
+    if not tmo:
+        return
+    unit = tmo * 10 ** 6
+    start = (epoch_us // unit) * unit
+    t_a, t_0 = start + unit // 5, start + unit + 7 * unit // 10
+    agent = "client with an older nonce"
+    method, path, query = "GET", "/admin", ""
+    user = world.required or list(USERS[world.realm])[0]
+    password = USERS[world.realm][user]
+    real = hashlib.md5 if world.alg.startswith("MD5") else hashlib.sha256
+    chal_a, _ = world.challenge(agent, t_a)
+    if not chal_a or "nonce" not in chal_a:
+        return
+
+    def header(nonce, opaque, pw):
+        return lat(serialize(client_fields(
+            real, world.alg, world.qop, user, world.realm, pw, nonce, opaque,
+            method, request_uri(path, query))))
+    refused = world.request(method, path, query, agent, header(
+        chal_a["nonce"], chal_a["opaque"], password + "-wrong"), t_0)
+    chal_b = parse_challenge(refused["www"])
+    ctx.case(("refusal-nonce", world.alg, world.qop, tmo))
+    ctx.count("monitor:nonce-of-a-refusal")
+    if refused["ran"] or not chal_b or "nonce" not in chal_b:
+        ctx.violation("digest-refusal-without-challenge",
+                      {"alg": world.alg, "observed": refused})
+        return
+    world.issued.setdefault(chal_b["nonce"], (agent, t_0))
+    for part in (unit // 2, unit - 10 ** 6):
+        again = world.request(method, path, query, agent, header(
+            chal_b["nonce"], chal_b["opaque"], password), t_0 + part)
+        if not again["ran"] or again["user"] != user:
+            ctx.violation("digest-nonce-of-refusal-expires-early", {
+                "alg": world.alg, "qop": world.qop, "timeout": tmo,
+                "first_challenge_at_us": t_a, "wrong_password_at_us": t_0,
+                "right_password_at_us": t_0 + part,
+                "same_nonce_as_first_challenge":
+                    chal_b["nonce"] == chal_a["nonce"],
+                "observed": again})
 
 
 def retry_after_stale(ctx, world, req, obs):
